@@ -27,6 +27,7 @@ from engines import e1_sampler as e1
 from engines import e1_monitors as mon
 
 PROP = 'C05'
+MAX_B = dict(quick=120, thorough=1500)
 RUN_WALL = 30
 HARD_WALL = 600
 
@@ -224,6 +225,12 @@ def build_reference(args):
         out['why'] = twin['status']
         return out
     B = twin['batches']
+    if B > MAX_B[tier]:
+        # exhaustive over boundaries means all of them: configurations with
+        # more boundaries than the tier can afford are left to the other tier
+        out['status'] = 'discarded'
+        out['why'] = 'too many boundaries for this tier ({})'.format(B)
+        return out
     d = os.path.join(root, 'cfg{}'.format(i))
     os.makedirs(d, exist_ok=True)
     e1.install_clock()
@@ -424,7 +431,7 @@ def main(argv=None):
         return env.EXIT_OK
 
     n_cfg = args.configs or int(os.environ.get('VERIF_CONFIGS', 0)) or dict(
-        quick=6, thorough=48)[tier]
+        quick=10, thorough=64)[tier]
     n_chain = args.chains or int(os.environ.get('VERIF_RUNS', 0)) or dict(
         quick=56, thorough=1500)[tier]
     budget = float(os.environ.get('VERIF_BUDGET_S', 0)) or dict(
